@@ -1866,6 +1866,54 @@ def _seq_header(h):
     return re.fullmatch(r"always_ff@\(posedge clk\)begin:⟨0⟩", h) is not None
 
 
+class _BlockingEv(_Ev):
+    """abstract evaluation of get_blocking: bir_node.targets is a list of kinds 'T' (temporary) / 'S' (signal)"""
+    def __init__(self, kinds, blk, bir_name, aliases):
+        super().__init__({})
+        self.kinds, self.blk, self.bn, self.aliases = kinds, blk, bir_name, aliases
+        self.bound = {}
+
+    def ev(self, e):
+        t = norm(e)
+        if t == f"{self.bn}.targets":
+            return list(self.kinds)
+        if t == 's._upblk_type':
+            return ('cls', self.blk)
+        if isinstance(e, ast.Name) and e.id in self.bound:
+            return self.bound[e.id]
+        ar = attr_ref(e, self.aliases) if isinstance(e, ast.Attribute) else None
+        if ar is not None:
+            return ('cls', ar)
+        return super().ev(e)
+
+    def ev_Compare(self, e):
+        if len(e.ops) == 1 and isinstance(e.ops[0], (ast.Is, ast.IsNot)):
+            v = self.ev(e.left) == self.ev(e.comparators[0])
+            return v if isinstance(e.ops[0], ast.Is) else not v
+        return super().ev_Compare(e)
+
+    def ev_Call(self, e):
+        name = norm(e.func)
+        if name == 'isinstance' and len(e.args) == 2:
+            v = self.ev(e.args[0])
+            t = e.args[1]
+            names = [attr_ref(x, self.aliases) for x in (t.elts if isinstance(t, ast.Tuple) else [t])]
+            if v in ('T', 'S') and all(names):
+                return (v == 'T') if 'TmpVar' in names else (v == 'S' and bool(names))
+            raise AnalysisError(f"isinstance outside the abstract domain: {norm(e)}")
+        if name in ('any', 'all') and len(e.args) == 1 and isinstance(e.args[0], (ast.GeneratorExp, ast.ListComp)) \
+                and len(e.args[0].generators) == 1 and isinstance(e.args[0].generators[0].target, ast.Name):
+            g = e.args[0].generators[0]
+            vals = []
+            for item in self.ev(g.iter):
+                self.bound[g.target.id] = item
+                if all(self.ev(c) for c in g.ifs):
+                    vals.append(bool(self.ev(e.args[0].elt)))
+            self.bound.pop(g.target.id, None)
+            return any(vals) if name == 'any' else all(vals)
+        return super().ev_Call(e)
+
+
 def rule_assign(repo, backend):
     r = RuleResult('R-tr-assign', f"[{backend}] @= becomes a blocking `=` and <<= a non-blocking `<=`; update blocks become "
                                   f"always_comb, update_ff blocks always_ff @(posedge clk); statements keep their order")
@@ -1931,25 +1979,84 @@ def rule_assign(repo, backend):
                   "node.target / node.value", taken[0].node.lineno)
         else:
             r.ok(c.mod, fq(c, f), f"{cons}: blocking={bool(blocking)}")
-    # (b) get_blocking chain (plain `=` statements, temporaries)
-    for c, f in lk.all_defs(gen, 'get_blocking'):
-        al = bir_aliases(repo, c.mod)
-        ex, outs = sym_run(f)
-        for o in outs:
-            if o.kind != 'return' or o.value is None:
-                continue
-            v = o.value
-            cons = f"get_blocking -> {norm(v)}"
-            if is_passthrough(v, 'get_blocking'):
-                r.ok(c.mod, fq(c, f), cons, nontrivial=False)
-            elif isinstance(v, ast.Constant) and v.value is True and any('TmpVar' in norm(t) for t, p in o.conds):
-                r.ok(c.mod, fq(c, f), cons + " (temporaries)", nontrivial=False)
-            elif isinstance(v, ast.Compare) and len(v.ops) == 1 and isinstance(v.ops[0], (ast.Is, ast.Eq)) and \
-                    norm(v.left) == 's._upblk_type' and attr_ref(v.comparators[0], al) == 'CombUpblk':
-                r.ok(c.mod, fq(c, f), cons)
-            else:
-                r.bad(c.mod, fq(c, f), cons, "an assignment is blocking exactly when it sits in a combinational block "
-                      "(or targets a temporary)", o.node.lineno)
+    # (b) get_blocking: the decision is a function of the kind of every target (temporary -> blocking in both block kinds;
+    #     signal -> blocking exactly in a combinational block; mixed chains rejected), for any number of targets
+    chain = lk.all_defs(gen, 'get_blocking')
+    if not chain:
+        raise AnalysisError("anchor vanished: get_blocking")
+    runs = [(c_, f_, sym_run(f_)[1]) for c_, f_ in chain]
+
+    def decide(level, kinds, blk):
+        """'blocking' / 'nonblocking' / 'reject' for a target list of the given kinds in a block of kind blk"""
+        nonlocal nev
+        if level >= len(runs):
+            raise AnalysisError("get_blocking: super() chain leaves the repository")
+        c_, f_, outs_ = runs[level]
+        al_ = bir_aliases(repo, c_.mod)
+        ps = [a.arg for a in f_.args.args]
+        bn = ps[2] if len(ps) > 2 else 'bir_node'
+        ev = _BlockingEv(kinds, blk, bn, al_)
+        live = []
+        for o in outs_:
+            okp = True
+            for t, pol in o.conds:
+                if pol not in (True, False):
+                    continue
+                nev += 1
+                try:
+                    val = bool(ev.ev(t))
+                except (AnalysisError, Raised, TypeError, IndexError) as e:
+                    raise AnalysisError(f"{fq(c_, f_)}: condition outside the abstract domain: {norm(t)[:80]}")
+                if val != pol:
+                    okp = False
+                    break
+            if okp:
+                live.append(o)
+        if len(live) != 1:
+            raise AnalysisError(f"{fq(c_, f_)}: {len(live)} paths for targets {kinds} in {blk}")
+        o = live[0]
+        if o.kind == 'raise':
+            return 'reject', c_, f_, o
+        if o.kind != 'return' or o.value is None:
+            return 'none', c_, f_, o
+        if is_passthrough(o.value, 'get_blocking'):
+            return decide(level + 1, kinds, blk)
+        try:
+            val = ev.ev(o.value)
+        except (AnalysisError, Raised, TypeError, IndexError):
+            raise AnalysisError(f"{fq(c_, f_)}: result outside the abstract domain: {norm(o.value)[:80]}")
+        return ('blocking' if val else 'nonblocking'), c_, f_, o
+    reported = set()
+    n_cfg = 0
+    for n_t in (1, 2, 3):
+        for kinds in itertools.product('TS', repeat=n_t):
+            for blk in ('CombUpblk', 'SeqUpblk'):
+                n_cfg += 1
+                got, c_, f_, o = decide(0, list(kinds), blk)
+                if set(kinds) == {'T'}:
+                    want = 'blocking'
+                elif set(kinds) == {'S'}:
+                    want = 'blocking' if blk == 'CombUpblk' else 'nonblocking'
+                else:
+                    want = 'reject'
+                if got != want:
+                    key = (fq(c_, f_), norm(o.node)[:60], want)
+                    if key in reported:
+                        continue
+                    reported.add(key)
+                    show = ' = '.join('tmp' if k == 'T' else 's.sig' for k in kinds)
+                    r.bad(c_.mod, fq(c_, f_), f"get_blocking: {norm(o.node)[:90]}",
+                          f"`{show} = value` in an {'update' if blk == 'CombUpblk' else 'update_ff'} block is "
+                          f"{'rejected' if got == 'reject' else 'emitted as a ' + got + ' assignment'}, expected {want}: a temporary is "
+                          f"always assigned blocking (later reads in the same block see the new value), a signal with `=` in "
+                          f"always_comb and `<=` in always_ff, a chain mixing both kinds cannot use one operator", o.node.lineno)
+    c0, f0 = chain[0]
+    bad_classes = {(k[2]) for k in reported}
+    for cls_, want_c, want_s in (('all temporaries', 'blocking', 'blocking'), ('all signals', 'blocking', 'nonblocking'),
+                                 ('temporaries and signals mixed', 'reject', 'reject')):
+        for blk, want in (('update', want_c), ('update_ff', want_s)):
+            if not reported:
+                r.ok(c0.mod, fq(c0, f0), f"get_blocking: {cls_} in {blk} -> {want} (1..3 targets)")
     # (c) pass: block kind <-> block list
     gp = gen_pass(repo, backend)
     res = lk.find(gp, '__call__')
@@ -3014,15 +3121,40 @@ def rule_modname(repo, backend):
                   f"definition is emitted as {mism[2]!r}", f.lineno)
         else:
             r.ok(c.mod, fq(c, f), f"instantiate: explicit name if set else unique name")
-        # per element
+        # per element, on every path
         obj_txt = norm(has[0].func.value)
-        utxt = norm(uniq[0])
         recursive = bool(per_elem_params) or any(isinstance(n, ast.Call) and isinstance(n.func, ast.Name) and n.func.id == g.name
                                                  for n in ast.walk(g))
-        dep = any(re.search(rf"\b{re.escape(p)}\b", utxt) for p in per_elem_params) and not hoisted
-        dep_obj = any(re.search(rf"\b{re.escape(p)}\b", obj_txt) for p in per_elem_params) and not hoisted
+
+        def mentions_elem(txt):
+            return any(re.search(rf"\b{re.escape(p)}\b", txt) for p in per_elem_params) and not hoisted
+
+        def arms(e, tests=()):
+            """alternatives of a conditional expression with the tests that select them"""
+            if isinstance(e, ast.IfExp):
+                return arms(e.body, tests + ((e.test, True),)) + arms(e.orelse, tests + ((e.test, False),))
+            return [(e, tests)]
+
+        def same_object_test(test, pol):
+            # only identity of the element itself with another object justifies reusing that object's type
+            return pol is True and isinstance(test, ast.Compare) and len(test.ops) == 1 and isinstance(test.ops[0], ast.Is) and \
+                obj_txt in (norm(test.left), norm(test.comparators[0]))
+        dep_obj = mentions_elem(obj_txt)
+        bad_arm = None
+        for u in uniq:
+            if not u.args:
+                continue
+            for arm, tests in arms(u.args[0]):
+                if not mentions_elem(norm(arm)) and not any(same_object_test(t, p_) for t, p_ in tests):
+                    bad_arm = (arm, tests)
         cons2 = f"unique name from {norm(uniq[0].args[0])[:120] if uniq[0].args else '?'}"
-        if recursive and not (dep and dep_obj):
+        if recursive and bad_arm is not None and dep_obj and bad_arm[1]:
+            arm, tests = bad_arm
+            r.bad(c.mod, fq(c, f), cons2, f"on the path where `{norm(tests[-1][0])[:80]}` is {tests[-1][1]} the module name of an array "
+                  f"element is derived from `{norm(arm)[:60]}` (the array's element type / element 0) instead of the element's own "
+                  f"RTLIR type: that condition does not imply equal construct() parameters, so e.g. [A(1), A(4)] both instantiate "
+                  f"A__k_1", f.lineno)
+        elif recursive and (bad_arm is not None or not dep_obj):
             r.bad(c.mod, fq(c, f), cons2, "for an array of sub-components the module name is computed once (from element [0] / the "
                   "array's element type) and reused for every element; RTLIR arrays only require equal interfaces, so elements "
                   "constructed with different parameters are all bound to element 0's module", f.lineno)
